@@ -37,7 +37,17 @@ FactorBases == <<
      <<"GASNATURAL", "RED", "SUMINISTRO", "A", "0.0", "1.1", "0.2 <CM>">> >> >>
 SoupAtoms == {"0", "CONSUMO", "DEMANDA", "ACS", "ELECTRICIDAD", "1e39", "", "#"}
 
+\* metadata the program interprets (area, k_exp, location, RED1 / RED2 factors) with every atom as value, and with
+\* the atom in the middle of a triple
+MetaKeys == {"CTE_AREAREF", "CTE_KEXP", "CTE_LOCALIZACION", "CTE_RED1", "CTE_RED2", "Area_ref", "kexp"}
+MetaBuilding == << <<"1", "CONSUMO", "CAL", "RED1", "5", "5">>, <<"1", "CONSUMO", "ACS", "RED2", "1", "2">>, <<"0", "PRODUCCION", "EL_INSITU", "2", "2">> >>
+MetaFiles == {<< <<"#META " \o k \o ": " \o a>> >> \o MetaBuilding : k \in MetaKeys, a \in AtomSet}
+             \cup {<< <<"#META " \o k \o ": 0.1", a, "0.3">> >> \o MetaBuilding : k \in {"CTE_RED1", "CTE_RED2"}, a \in AtomSet}
+             \cup {<< <<"#META " \o k \o ": (0.1", a, "0.3)">> >> \o MetaBuilding : k \in {"CTE_RED1"}, a \in AtomSet}
+             \cup {<< <<"#META " \o k \o ": { ren: 0.1", "nren: " \o a, "co2: 0.3 }">> >> \o MetaBuilding : k \in {"CTE_RED2"}, a \in AtomSet}
+
 Init ==
+  \/ kind = "comps" /\ base = -1 /\ d = Depth /\ file \in MetaFiles
   \/ \E b \in 1..Len(CompBases) : kind = "comps" /\ base = b /\ file = CompBases[b] /\ d = 0
   \/ \E b \in 1..Len(FactorBases) : kind = "factors" /\ base = b /\ file = FactorBases[b] /\ d = 0
   \/ kind = "comps" /\ base = 0 /\ d = Depth
